@@ -183,6 +183,7 @@ type tickObs struct {
 	Out      []string `json:"out"`
 	Active   bool     `json:"active"`
 	NTop     int      `json:"ntop"`
+	Snap     string   `json:"snap"` // Coq term: both memories at a tick in which an acknowledgment was sent
 }
 
 type runObs struct {
@@ -289,6 +290,7 @@ func execute(in input) (runObs, error) {
 				}
 			}
 		}
+		queued := top.NumOutgoing()
 		panicked, msg := hx.Try(func() { to.Progress = comp.Tick() })
 		if panicked {
 			ob.Outcome = 1
@@ -296,6 +298,10 @@ func execute(in input) (runObs, error) {
 			break
 		}
 		to.Active = comp.State.CurrentTransaction.Active
+		to.Snap = hx.None()
+		if top.NumOutgoing() > queued {
+			to.Snap = hx.Some(hx.T(hx.Bytes(mems[0]), hx.Bytes(mems[1])))
+		}
 		for i := 0; i < st.DrainTop; i++ {
 			m := top.RetrieveOutgoing()
 			if m == nil {
@@ -393,7 +399,7 @@ func runRun(in input) (hx.Case, error) {
 	ticks := make([]string, len(ob.Ticks))
 	nacks := 0
 	for i, t := range ob.Ticks {
-		ticks[i] = hx.App("mk_tobs", hx.B(t.Progress), hx.L(t.Acks), hx.L(t.In), hx.L(t.Out), hx.B(t.Active), hx.Nat(t.NTop))
+		ticks[i] = hx.App("mk_tobs", hx.B(t.Progress), hx.L(t.Acks), hx.L(t.In), hx.L(t.Out), hx.B(t.Active), hx.Nat(t.NTop), t.Snap)
 		nacks += len(t.Acks)
 	}
 	c := hx.Case{Obs: ob}
